@@ -8,6 +8,7 @@ use vharness::*;
 mod fe_damage;
 mod fe_grammar;
 mod fe_lexer;
+mod fe_static;
 
 fn main() {
     let args: Vec<String> = std::env::args().collect();
@@ -35,6 +36,14 @@ fn main() {
         "lexer" => run_cases(cases, max_fail, fe_lexer::lexer_case),
         "lexinc" => fe_lexer::run_lexinc(cases, max_fail, &opts),
         "lexchain" => run_cases(cases, max_fail, fe_lexer::lexchain_case),
+        "static" => {
+            let layouts: Vec<String> = opts
+                .get("layouts")
+                .map(|s| s.split(',').map(|x| x.to_string()).collect())
+                .unwrap_or_else(|| vec!["canon".into(), "min".into(), "nl".into(), "cmtall".into()]);
+            let missing = opts.get("missing").map(|s| s == "1").unwrap_or(false);
+            run_cases(cases, max_fail, move |_t, c| fe_static::static_case(c, &layouts, missing))
+        }
         "damage" => {
             let stride: usize = opts.get("dstride").and_then(|s| s.parse().ok()).unwrap_or(1);
             run_cases(cases, max_fail, move |_t, c| fe_damage::damage_case(c, stride))
